@@ -1059,7 +1059,16 @@ where
         // Partial transfer of the delivery
         match &mut self.incomplete_transfer {
             Some(incomplete) => {
-                incomplete.or_assign(transfer)?;
+                if incomplete.rejected {
+                    return Ok(());
+                }
+                if let Err(error) = incomplete.or_assign(transfer) {
+                    // The delivery is reported as an error now. What has been buffered of it
+                    // must not be completed by its later frames into a message with a hole
+                    incomplete.rejected = true;
+                    incomplete.buffer.clear();
+                    return Err(error.into());
+                }
                 incomplete.append(payload);
 
                 if let Some(delivery_tag) = incomplete.performative.delivery_tag.clone() {
@@ -1149,6 +1158,8 @@ where
         for<'de> T: FromBody<'de> + Send,
     {
         let delivery = match self.incomplete_transfer.take() {
+            // the last frame of a delivery that has already been reported as inconsistent
+            Some(incomplete) if incomplete.rejected => return Ok(None),
             Some(mut incomplete) => {
                 incomplete.or_assign(transfer)?;
                 incomplete.append(payload); // This also computes the section number and offset incrementally
